@@ -30,6 +30,7 @@ def run(chk):
     batcher.receiver_flags(chk, P, "C06")
     batcher.termination(chk, P, "C06")
     batcher.capacity_hint(chk, P, "C06")
+    batcher.metrics_accounting(chk, P, "C06")
     common.arg_agreement_rule(chk, P, "C06", [("emit_batcher", None)], 3)
     from . import witness
     witness.witness_rule(chk, "C06", 5)
